@@ -134,7 +134,9 @@ def gen_cases(rng, tier):
         keys = fqeio.sector_keys(norb, mode, nn, sz)
         cases.append({'kind': 'evolve', 'recipe': rec, 'norb': norb, 'mode': mode, 'n': nn, 'sz': sz,
                       'vec': fqeio.random_state(rng, norb, keys, density=0.8, amp=2), 'ham': ham, 't': t,
-                      'algo': rng.choice([None, None, 'taylor', 'chebyshev'])})
+                      'algo': rng.choice([None, None, 'taylor', 'chebyshev']),
+                      # the same Hamiltonian OBJECT used before the evolution (energy measurement, apply)
+                      'warm': rng.choice([None, None, 'apply', 'expect'])})
     for c in cases:
         c['L1'] = l1_norm(c['ham'], c['norb'])
     return cases
@@ -149,6 +151,13 @@ def run_impl(case, mode):
     wfn = fqeio.make_wfn(norb, case['mode'], case['n'], case['sz'], case['vec'])
     ham = c01.build_ham(case['ham'], norb)
     t = case['t']
+    try:
+        if case.get('warm') == 'apply':
+            wfn.apply(ham)
+        elif case.get('warm') == 'expect':
+            wfn.expectationValue(ham)
+    except Exception:  # noqa -- refusals of apply are C14's business; the evolution below is what is under test
+        pass
     before = fqeio.read_state(wfn)
     res = {'route': {'cls': type(ham).__name__, 'quadratic': bool(ham.quadratic()), 'diagonal': bool(ham.diagonal()),
                      'dc': bool(ham.diagonal_coulomb())}}
